@@ -245,6 +245,13 @@ func (s *scenario) take(a *Attempt) {
 			time.Sleep(5 * time.Millisecond)
 		}
 	}
+	if old != nil && old.Gone() {
+		// the client gave up on the request that was held (the harness took longer than its 5 s timeout): an
+		// unscripted failure - the script can no longer be followed attempt by attempt
+		s.accounted[old.EP.URL(s.tag, fmt.Sprintf("h%d", h+1))]++
+		s.tainted = true
+		s.st.Unscripted++
+	}
 	if old != nil && !old.Gone() {
 		s.mismatch(h+1, "attempt", fmt.Sprintf("hook %s has two requests in flight at once (%s/%s and %s/%s): its sender is not sequential",
 			s.names[h], old.ID, old.Detect, a.ID, a.Detect))
@@ -604,6 +611,7 @@ func (r *Runner) Run(bi int, sc *Script, st *Stats) ([]Mismatch, error) {
 	}
 
 	// ---- recovery and quiescence
+	tooLong := sc.MaxClock == 0 && time.Since(t0) > 18*time.Second // the model's clock stands still: the real 30 s retention must not matter
 	s.auto = true
 	if err := openAll(); err != nil {
 		return s.out, err
@@ -732,7 +740,7 @@ func (r *Runner) Run(bi int, sc *Script, st *Stats) ([]Mismatch, error) {
 		}
 	}
 	if len(s.out) > before || len(s.out) > 0 {
-		if ms > r.o.MaxStall || len(s.ambiguous) > 0 || (usedTicks && s.tainted) {
+		if ms > r.o.MaxStall || len(s.ambiguous) > 0 || (usedTicks && s.tainted) || tooLong {
 			// too slow to judge: an accepted request whose client had given up, or a stalled process
 			st.SkippedSlow++
 			return nil, nil
